@@ -140,8 +140,32 @@ def gen_case(rng, stream):
         out += (lead + h + mid + ":" + sp + b + "\n").encode("latin-1")
     if stream == "unterminated":
         out = out[:-1]
-    return {"stream": stream, "mode": mode, "recs": recs, "input": bytes(out),
+    case = {"stream": stream, "mode": mode, "recs": recs, "input": bytes(out),
             "hash_seed": rng.choice([0, 1, 2, 7, 12345, rng.randrange(1 << 30)])}
+    if rng.random() < 0.12:
+        split_into_files(case, [rng.randrange(0, 1000) for _ in range(3)], rng.random() < 0.7, rng.random() < 0.2)
+    return case
+
+
+def split_into_files(case, cuts, unterminate, empty_file):
+    """`dshbak out1 out2 ...`: the same lines given as two to four FILE ARGUMENTS; an earlier file may end without its
+    newline (pdsh writes the unterminated tail of remote output like that) — a line is a line all the same"""
+    lines = case["input"].split(b"\n")
+    tail = lines.pop()
+    lines = [l + b"\n" for l in lines] + ([tail] if tail else [])
+    if len(lines) < 2:
+        return
+    at = sorted({1 + c % (len(lines) - 1) for c in cuts})
+    files, prev = [], 0
+    for a in at + [len(lines)]:
+        files.append(b"".join(lines[prev:a]))
+        prev = a
+    if unterminate:
+        files = [f[:-1] if (i < len(files) - 1 and i % 2 == 0 and f.endswith(b"\n") and not f.endswith(b"\n\n") and f != b"\n") else f
+                 for i, f in enumerate(files)]
+    if empty_file:
+        files.insert(1, b"")
+    case["files"] = files
 
 
 def subset_cases(universe, body="x"):
@@ -160,8 +184,284 @@ def subset_cases(universe, body="x"):
     return out
 
 
+# ------------------------------------------------------------------ pinned cases: run FIRST in every run, no randomness
+def pinned_cases():
+    """the classes every quick run must cover, enumerated: label shapes (dots, digits, dashes, zero padding, 09->10 and
+    099->100 bridges, mixed widths, numeric-only names, name 0, hosts that differ only in the suffix, several prefixes
+    under one suffix), body shapes (empty, differing only in trailing blanks / CR / one line anywhere, prefix of one
+    another, starting with a colon, holding `: `, very long), an unterminated final line, blanks around the label —
+    each in report, -c and -d mode under two hash seeds"""
+    out = []
+
+    def rr(per_host):
+        """round-robin interleaving that keeps every host's own order"""
+        recs, i = [], 0
+        hosts = list(per_host)
+        while any(i < len(per_host[h]) for h in hosts):
+            for h in hosts:
+                if i < len(per_host[h]):
+                    recs.append((h, per_host[h][i]))
+            i += 1
+        return recs
+
+    def add(tag, per_host, modes="cnd", stream="plain", fmt="%s: %s\n", unterminated=False):
+        recs = rr(per_host)
+        inp = "".join(fmt % r for r in recs).encode("latin-1")
+        if unterminated:
+            inp = inp[:-1]
+        for m in modes:
+            for seed in (0, 12345):
+                out.append({"stream": "unterminated" if unterminated else stream, "mode": m, "recs": recs, "input": inp,
+                            "hash_seed": seed, "pin": tag})
+
+    same = lambda hosts, body=("up",): {h: list(body) for h in hosts}
+    # labels
+    add("labels:dots-dashes-digits", same(["n1.dom", "n2.dom", "a-1", "a-2", "r2d2", "r2d3", "10.0.0.1", "10.0.0.2", "x.y_z-1"]))
+    add("labels:bridge-09-10", same(["n08", "n09", "n10", "n11", "n7"]))
+    add("labels:bridge-099-100", same(["n098", "n099", "n100", "n101", "n0998", "n0999", "n1000", "n1001"]))
+    add("labels:mixed-widths", same(["n1", "n01", "n001", "n2", "n02", "n002", "n3", "n010", "n10"]))
+    add("labels:numeric-only", same(["007", "008", "009", "010", "0", "1", "2", "00"]))
+    add("labels:suffix-only-differs", same(["n1-ib", "n1-eth", "n2-ib", "n2-eth", "n1", "n2", "n1-", "n2-"]))
+    add("labels:two-prefixes-one-suffix", same(["ca1-ib", "cb1-ib", "ca2-ib", "cb2-ib", "cb3-ib", "gw1-ib", "ca1"]))
+    add("labels:two-prefixes-no-suffix", same(["ca1", "cb1", "ca2", "cb2", "login"]))
+    add("labels:digits-inside-prefix", same(["r2d1", "r2d2", "r3d1", "r3d2", "a1b01x", "a1b02x"]))
+    add("labels:digit-free", same(["foo", "bar", "login", "a-b"]))
+    add("labels:long", same(["h" * 300 + "1", "h" * 300 + "2"]), modes="cn")       # (NAME_MAX: not as file names)
+    add("labels:case-and-underscore", same(["N1", "n1", "N2", "n2", "_x1", "_x2"]))
+    add("labels:big-numbers", same(["n999999999999998", "n999999999999999", "n1000000000000000", "m18446744073709551613"]))
+    # bodies: what must NOT be merged, and what must
+    add("bodies:trailing-blank-differs", {"a1": ["x"], "a2": ["x "], "a3": ["x\t"], "a4": ["x"], "a5": ["x  "]})
+    add("bodies:empty-vs-blank", {"a1": [""], "a2": [" "], "a3": [""], "a4": ["", ""], "a5": []} | {"a5": ["  "]})
+    add("bodies:cr-differs", {"a1": ["x\r"], "a2": ["x"], "a3": ["x\r"], "a4": ["\r"], "a5": [""]})
+    add("bodies:same-last-line", {"a1": ["one", "done"], "a2": ["two", "done"], "a3": ["one", "done"], "a4": ["", "done"]})
+    add("bodies:same-first-line", {"a1": ["hdr", "1"], "a2": ["hdr", "2"], "a3": ["hdr", "1"]})
+    add("bodies:middle-differs", {"a1": ["a", "b", "c"], "a2": ["a", "B", "c"], "a3": ["a", "b", "c"], "a4": ["a", "", "c"]})
+    add("bodies:prefix-of-another", {"a1": ["a", "b"], "a2": ["a", "b", "c"], "a3": ["a"], "a4": ["a", "b"], "a5": ["a", "b", ""]})
+    add("bodies:permuted-lines", {"a1": ["a", "b"], "a2": ["b", "a"], "a3": ["a", "b"]})
+    add("bodies:repeated-lines", {"a1": ["a", "a"], "a2": ["a"], "a3": ["a", "a", "a"], "a4": ["a", "a"]})
+    add("bodies:leading-colon", {"n1": ["::1 localhost", ":wq"], "n2": [" : note", ": ${X:=1}"], "n3": ["::1 localhost", ":wq"],
+                                  "n4": [":", "::"]})
+    add("bodies:colon-blank-inside", {"n1": ["eth0: flags=1", "k: v: w"], "n2": ["eth0: flags=1", "k: v: w"], "n3": ["a :b", "n9: x"]})
+    add("bodies:label-like", {"n1": ["n2: x"], "n2": ["x"], "n3": ["n2: x"]})
+    add("bodies:very-long", {"n1": ["y" * 100000, "z"], "n2": ["y" * 100000, "z"], "n3": ["y" * 99999, "z"]})
+    add("bodies:many-lines", {"n1": [str(i) for i in range(300)], "n2": [str(i) for i in range(300)],
+                              "n3": [str(i) for i in range(299)] + ["x"]})
+    add("bodies:binary", {"n1": ["\x01\x7f\xff\xe9"], "n2": ["\x01\x7f\xff\xe9"], "n3": ["\x01\x7f\xff\xe8"]})
+    add("bodies:divider-look-alike", {"n1": ["---------------"], "n2": ["-----------------"], "n3": ["- - -"]})
+    # the line format
+    add("format:no-blank-after-colon", {"n1": ["x", "y"], "n2": ["x", "y"]}, fmt="%s:%s\n")
+    add("format:blanks-around-label", {"n1": ["x"], "n2": ["x"], "n3": ["y"]}, fmt="  %s \t: %s\n")
+    add("format:two-blanks-after-colon", {"n1": [" x"], "n2": [" x"], "n3": ["x"]}, fmt="%s: %s\n")
+    add("format:crlf", {"n1": ["x\r", "y\r"], "n2": ["x\r", "y\r"], "n3": ["x\r", "z\r"]})
+    add("format:unterminated-last", {"n1": ["x", "y"], "n2": ["x", "y"], "n3": ["x", "tail"]}, unterminated=True)
+    add("format:unterminated-only-line", {"n1": ["x"]}, unterminated=True)
+    add("format:one-host-one-line", {"n1": ["x"]})
+    # the input as FILE ARGUMENTS: every cut of a small input into 2 and 3 files, the earlier files with and without
+    # their final newline; an empty file among them; a single file argument
+    recs = [("n1", "a"), ("n2", "a"), ("n1", "b"), ("n2", "b"), ("n3", "z")]
+    lines = [("%s: %s\n" % r).encode() for r in recs]
+    cuts = [[i] for i in range(1, len(lines))] + [[1, 3], [2, 4], [2, 3]]
+    for cut in cuts:
+        for unterm in (True, False):
+            files, prev = [], 0
+            for a in cut + [len(lines)]:
+                files.append(b"".join(lines[prev:a]))
+                prev = a
+            if unterm:
+                files = [f[:-1] if i < len(files) - 1 else f for i, f in enumerate(files)]
+            for m in "cnd":
+                out.append({"stream": "plain", "mode": m, "recs": recs, "input": b"".join(lines), "hash_seed": 0,
+                            "files": files, "pin": "files:cut%s:%s" % ("-".join(map(str, cut)), "unterminated" if unterm else "terminated")})
+    for m in "cnd":
+        out.append({"stream": "plain", "mode": m, "recs": recs, "input": b"".join(lines), "hash_seed": 0,
+                    "files": [b"".join(lines[:2])[:-1], b"", b"".join(lines[2:])], "pin": "files:empty-file-between"})
+        out.append({"stream": "plain", "mode": m, "recs": recs, "input": b"".join(lines), "hash_seed": 0,
+                    "files": [b"".join(lines)], "pin": "files:single"})
+        out.append({"stream": "unterminated", "mode": m, "recs": recs, "input": b"".join(lines)[:-1], "hash_seed": 0,
+                    "files": [b"".join(lines[:3])[:-1], b"".join(lines[3:])[:-1]], "pin": "files:all-unterminated"})
+    return out
+
+
+DLABELS = ["x", "./x", "a/b", "../esc", ".", "..", "x/", "a//b", ".hid", "..two", "y"]
+
+
+def option_cases(ctx, script, judge, cov, dist):
+    """the option block (-h, -c, -d DIR, -f in every combination x DIR an existing directory / missing / a plain file /
+    named `0`) against `Dshbak/Options.lean: plan`, the per-file output against the specification, and -d with labels
+    that are not plain file names (F19-DIRLABEL)"""
+    import shutil
+    work = os.path.join(ctx.scratch, "dshbak-opt")
+    shutil.rmtree(work, ignore_errors=True)
+    os.makedirs(work)
+    recs = [("n1", "a"), ("n2", "a"), ("n10", "b"), ("n1", "c"), ("n2", "c")]
+    inp = "".join("%s: %s\n" % r for r in recs).encode()
+    lines_of = {}
+    for t, b in recs:
+        lines_of.setdefault(t, []).append(b)
+    env = {"PATH": "/usr/bin:/bin", "PERL_HASH_SEED": "0", "PERL_PERTURB_KEYS": "0"}
+
+    def prepare(cd, dname, state):
+        os.makedirs(cd)
+        if dname is not None:
+            tgt = os.path.join(cd, dname) if dname else None
+            if tgt and state == "dir":
+                os.makedirs(tgt)
+            elif tgt and state == "notdir":
+                open(tgt, "w").close()
+
+    def observe(cd, argv, data, dname, attempt=0):
+        try:
+            p = subprocess.run(["perl", script] + argv, input=data, stdout=subprocess.PIPE, stderr=subprocess.PIPE, env=env,
+                               cwd=cd, timeout=120)
+        except subprocess.TimeoutExpired:
+            if attempt == 0:
+                return observe(cd, argv, data, dname, attempt=1)
+            return {"rc": "timeout", "plan": "timeout", "files": {}, "err": "", "out": ""}
+        err = p.stderr.decode("latin-1")
+        out = p.stdout.decode("latin-1")
+        files = {}
+        for r, ds, fs in os.walk(cd):
+            for f in fs:
+                fp = os.path.join(r, f)
+                files[os.path.relpath(fp, cd)] = open(fp, "rb").read().decode("latin-1")
+        return {"rc": p.returncode, "err": err[-300:], "out": out, "files": files}
+
+    # ---- is F19-DIRZERO repaired?  is F19-DIRLABEL repaired?  (probed: the model mirrors either form)
+    cd = os.path.join(work, "probe0")
+    prepare(cd, "0", "dir")
+    r0 = observe(cd, ["-d", "0"], inp, "0")
+    fix_d0 = 1 if any(k.startswith("0/") for k in r0["files"]) else 0
+    cd = os.path.join(work, "probe1")
+    prepare(cd, "D", "dir")
+    r1 = observe(cd, ["-d", "D"], b"a/b: x\nz: y\n", "D")
+    fix_label = r1["rc"] not in (0, "timeout") and not r1["files"]
+    dist["script_form"] += ("+DIRZERO-repaired" if fix_d0 else "") + ("+DIRLABEL-repaired" if fix_label else "")
+    # ---- the option matrix
+    k = 0
+    olines, ocases = [], []
+    for flags in ("", "c", "h", "f", "cf", "ch", "hf", "chf"):
+        for dname, state in ((None, "dir"), ("out", "dir"), ("out", "missing"), ("out", "notdir"), ("new/deep", "missing"),
+                             ("0", "dir"), ("0", "missing"), ("", "notdir"), ("00", "dir"), ("0.0", "missing")):
+            for order in (0, 1):
+                argv = ["-" + f for f in flags]
+                if dname is not None:
+                    argv = (argv + ["-d", dname]) if order == 0 else (["-d", dname] + argv)
+                elif order == 1:
+                    continue
+                cd = os.path.join(work, "o%d" % k)
+                k += 1
+                prepare(cd, dname, state)
+                ocases.append((flags, dname, state, argv, cd))
+                olines.append("o %d %s %s %s\n" % (fix_d0, flags or "-", "~" if dname is None else (hx(dname) if dname else "-"),
+                                                   state))
+    answers = ctx.model("dshbak", "".join(olines), args=["model"])
+    dist["option_plans"] = {}
+    for (flags, dname, state, argv, cd), want in zip(ocases, answers):
+        r = observe(cd, argv, inp, dname)
+        cov["evaluations"] += 1
+        blocks, _ = parse_report(r["out"])
+        infiles = {kf[len(dname) + 1:]: v for kf, v in r["files"].items() if dname and kf.startswith(dname + "/")}
+        if r["rc"] == "timeout":
+            got = "timeout"
+        elif r["rc"] == 0 and "Usage:" in r["err"] and not r["out"]:
+            got = "usage"
+        elif r["rc"] == 1 and "Fatal" in r["err"] and not r["out"]:
+            got = "fatal"
+        elif r["rc"] == 0 and infiles and not r["out"]:
+            got = "perfile%d" % (0 if state == "dir" else 1)
+        elif r["rc"] == 0 and len(blocks) == 2:
+            got = "coalesced"
+        elif r["rc"] == 0 and len(blocks) == 3:
+            got = "report"
+        else:
+            got = "other(rc=%s)" % r["rc"]
+        dist["option_plans"][got] = dist["option_plans"].get(got, 0) + 1
+        case = {"argv": argv, "dir_state": state, "input_text": inp.decode(), "cmd": "perl scripts/dshbak %s < input" % " ".join(argv)}
+        if got != want:
+            ctx.disagreement("dshbak option block vs Dshbak/Options.lean", "argv %r (DIR %s): real %s, model %s; stderr %r" %
+                             (argv, state, got, want, r["err"][-120:]), case)
+        # ---- oracle (what the property text says, independent of the model)
+        wants_files = dname is not None and "h" not in flags and "c" not in flags and (state == "dir" or ("f" in flags and state == "missing"))
+        if got in ("usage", "fatal", "timeout") or got.startswith("other"):
+            if got == "timeout" or got.startswith("other"):
+                ctx.offender("options:garbled", "argv %r: %s %r" % (argv, got, r["err"][-150:]), {"case": case})
+            elif r["files"] and any(v for kf, v in r["files"].items()) and got == "fatal":
+                ctx.offender("options:refused-after-writing", "argv %r: exit 1 but files were written: %r" %
+                             (argv, sorted(r["files"])[:5]), {"case": case})
+            continue
+        if wants_files:
+            want_files = {t: "".join(l + "\n" for l in ls) for t, ls in lines_of.items()}
+            if infiles != want_files:
+                sig = "per-file:-d-ignored(name-is-false-in-perl)" if (dname in ("0", "") and not infiles) else "per-file:files"
+                ctx.offender(sig, "argv %r: -d %r given, expected one file per host %r, found %r (stdout %d bytes)" %
+                             (argv, dname, sorted(want_files), sorted(r["files"]), len(r["out"])), {"case": case})
+        elif got == "report" or got == "coalesced":
+            got_blocks = {h: b for h, b in blocks}
+            if got == "report" and got_blocks != lines_of:
+                ctx.offender("regroup:report", "argv %r: report %r" % (argv, blocks[:4]), {"case": case})
+            if got == "coalesced" and got_blocks != {"n[1-2]": ["a", "c"], "n10": ["b"]}:
+                ctx.offender("regroup:coalesced", "argv %r: report %r" % (argv, blocks[:4]), {"case": case})
+            if "c" in flags and got != "coalesced":
+                ctx.offender("options:-c-ignored", "argv %r: %s" % (argv, got), {"case": case})
+    # ---- -d with labels that are not plain file names
+    import itertools
+    combos = [list(c) for c in itertools.combinations(DLABELS, 2)] + [DLABELS]
+    fl = ctx.model("dshbak", "f %s\n" % ",".join(hx(t) for t in DLABELS), args=["model"])[0]
+    plain = {t for t, b in zip(DLABELS, fl) if b == "1"}
+    dist["dlabel"] = {"cases": 0, "all-plain": 0, "refused-up-front": 0, "delivered": 0, "violations": 0}
+    for ci, labels in enumerate(combos):
+        for hseed in (0, 7):
+            cd = os.path.join(work, "l%d_%d" % (ci, hseed))
+            os.makedirs(os.path.join(cd, "P", "D"))
+            lrecs = [(t, "line-%d-%s" % (i, j)) for j in ("a", "b") for i, t in enumerate(labels)]
+            data = "".join("%s: %s\n" % r for r in lrecs).encode()
+            env["PERL_HASH_SEED"] = str(hseed)
+            r = observe(os.path.join(cd, "P"), ["-d", "D"], data, "D")
+            cov["evaluations"] += 1
+            dist["dlabel"]["cases"] += 1
+            want = {t: "line-%d-a\nline-%d-b\n" % (i, i) for i, t in enumerate(labels)}
+            case = {"mode": "d", "labels": labels, "hash_seed": hseed, "input_text": data.decode(),
+                    "cmd": "mkdir -p P/D && cd P && PERL_HASH_SEED=%d perl scripts/dshbak -d D < input" % hseed}
+            allplain = all(t in plain for t in labels)
+            dist["dlabel"]["all-plain"] += allplain
+            # what got where: real file (normalised path relative to P) -> content
+            got = {os.path.normpath(kf): v for kf, v in r["files"].items()}
+            bad = None
+            if r["rc"] == 0:
+                # every label must have a file of its own, inside D, holding its lines
+                place = {t: os.path.normpath(os.path.join("D", t)) for t in labels}
+                if len(set(place.values())) < len(labels):
+                    twice = sorted(t for t in labels if list(place.values()).count(place[t]) > 1)
+                    bad = ("shared-file", "labels %r are written to one file: the lines of all but one are lost, exit 0" % twice)
+                elif any(not p.startswith("D" + os.sep) for p in place.values()):
+                    bad = ("outside-DIR", "label %r is written outside DIR" % [t for t in labels if not place[t].startswith("D" + os.sep)])
+                elif any(got.get(place[t]) != want[t] for t in labels):
+                    bad = ("lost", "files %r do not hold their labels' lines" % sorted(got))
+                else:
+                    dist["dlabel"]["delivered"] += 1
+            elif r["rc"] == 1 and "Fatal" in r["err"]:
+                if got:
+                    bad = ("aborted-midway", "exit 1 (%s) after %d of %d files were written" % (r["err"].strip()[-80:], len(got), len(labels)))
+                else:
+                    dist["dlabel"]["refused-up-front"] += 1
+            else:
+                bad = ("crash", "rc=%s %r" % (r["rc"], r["err"][-100:]))
+            if bad:
+                dist["dlabel"]["violations"] += 1
+                if allplain:
+                    ctx.offender("per-file:" + bad[0], bad[1], {"case": case, "files": sorted(got)})
+                else:
+                    ctx.offender("per-file:label-is-a-path:" + bad[0], bad[1], {"case": case, "files": sorted(got)})
+            # correspondence: plain labels -> one file per label (Props/C19 per_file_spec); a repaired script refuses others
+            if allplain and (r["rc"] != 0 or got != {os.path.join("D", t): want[t] for t in labels}):
+                ctx.disagreement("dshbak -d vs model (plain labels)", "labels %r: rc=%s files %r" % (labels, r["rc"], sorted(got)), case)
+            if not allplain and fix_label and (r["rc"] != 1 or got):
+                ctx.disagreement("dshbak -d vs model (label check)", "labels %r: rc=%s files %r" % (labels, r["rc"], sorted(got)), case)
+    shutil.rmtree(work, ignore_errors=True)
+
+
 # ------------------------------------------------------------------ running the real things
-def run_dshbak(script, case, workdir, idx):
+def run_dshbak(script, case, workdir, idx, attempt=0):
     env = {"PATH": "/usr/bin:/bin", "PERL_HASH_SEED": str(case["hash_seed"]), "PERL_PERTURB_KEYS": "0"}
     cmd = ["perl", script]
     ddir = None
@@ -173,9 +473,19 @@ def run_dshbak(script, case, workdir, idx):
         for f in os.listdir(ddir):
             os.unlink(os.path.join(ddir, f))
         cmd += ["-d", ddir]
+    data = case["input"]
+    if case.get("files") is not None:
+        data = b""
+        for k, fb in enumerate(case["files"]):
+            fp = os.path.join(workdir, "in%d_%d" % (idx, k))
+            with open(fp, "wb") as fh:
+                fh.write(fb)
+            cmd.append(fp)
     try:
-        p = subprocess.run(cmd, input=case["input"], stdout=subprocess.PIPE, stderr=subprocess.PIPE, env=env, timeout=60)
+        p = subprocess.run(cmd, input=data, stdout=subprocess.PIPE, stderr=subprocess.PIPE, env=env, timeout=120)
     except subprocess.TimeoutExpired:
+        if attempt == 0:            # a timeout alone (a loaded machine) is tried once more before it is reported
+            return run_dshbak(script, case, workdir, idx, attempt=1)
         return {"rc": "timeout", "blocks": [], "err": ""}
     res = {"rc": p.returncode, "err": p.stderr.decode("latin-1")[-300:], "blocks": []}
     if case["mode"] == "d":
@@ -213,12 +523,14 @@ def parse_report(text):
     return blocks, perr
 
 
-def run_pdsh_Q(pdsh, header):
+def run_pdsh_Q(pdsh, header, attempt=0):
     """hosts the real pdsh expands HEADER to, or ('refused', message)"""
     try:
         p = subprocess.run([pdsh, "-Q", "-w", header], stdout=subprocess.PIPE, stderr=subprocess.PIPE,
-                           env={"PATH": "/usr/bin:/bin"}, timeout=60)
+                           env={"PATH": "/usr/bin:/bin"}, timeout=120)
     except subprocess.TimeoutExpired:
+        if attempt == 0:
+            return run_pdsh_Q(pdsh, header, attempt=1)
         return ("refused", "timeout")
     if p.returncode != 0:
         return ("refused", p.stderr.decode("latin-1")[-200:].strip())
@@ -289,7 +601,8 @@ def hxl(l):
 
 
 def model_line(case, repaired, lim="0"):
-    return "%s %d %s %s\n" % ("c" if case["mode"] == "c" else "n", int(repaired), lim, hexs(case["input"]))
+    hexin = hexs(case["input"]) if case.get("files") is None else "+".join((hexs(f) if f else "-") for f in case["files"])
+    return "%s %d %s %s\n" % ("c" if case["mode"] == "c" else "n", int(repaired), lim, hexin)
 
 
 def parse_model(line, mode):
@@ -517,6 +830,7 @@ BRANCHES = [
     # process_lines regex
     "line:ignored(no tag)", "line:blanks-before-tag", "line:blanks-before-colon", "line:no-blank-after-colon",
     "line:empty-body", "line:body-with-colon", "line:last-without-newline",
+    "input:file-arguments", "input:earlier-file-unterminated", "input:empty-file-argument",
     # output functions
     "mode:report", "mode:-c", "mode:-d", "-c:hosts-merged", "-c:singleton-header", "-c:several-blocks",
     # compress / compress_inner / comp
@@ -534,6 +848,12 @@ def branches_of(c, r):
     if lines and lines[-1] != "":
         b.add("line:last-without-newline")
     tags = {t for t, _ in c["recs"]}
+    if c.get("files") is not None:
+        b.add("input:file-arguments")
+        if any(f and not f.endswith(b"\n") for f in c["files"][:-1]):
+            b.add("input:earlier-file-unterminated")
+        if any(not f for f in c["files"]):
+            b.add("input:empty-file-argument")
     for l in lines:
         if l == "" and l is lines[-1]:
             continue
@@ -635,11 +955,19 @@ def nontrivial(c, r):
 
 
 def case_json(c):
-    return {"stream": c["stream"], "mode": c["mode"], "hash_seed": c["hash_seed"],
-            "input_hex": c["input"].hex(), "input_text": c["input"].decode("latin-1"),
-            "records": [[t, b] for t, b in c["recs"]],
-            "cmd": "PERL_HASH_SEED=%d perl scripts/dshbak%s < input" %
-                   (c["hash_seed"], {"c": " -c", "d": " -d DIR", "n": ""}[c["mode"]])}
+    j = {"stream": c["stream"], "mode": c["mode"], "hash_seed": c["hash_seed"],
+         "input_hex": c["input"].hex(), "input_text": c["input"].decode("latin-1"),
+         "records": [[t, b] for t, b in c["recs"]],
+         "cmd": "PERL_HASH_SEED=%d perl scripts/dshbak%s < input" %
+                (c["hash_seed"], {"c": " -c", "d": " -d DIR", "n": ""}[c["mode"]])}
+    if c.get("files") is not None:
+        j["files_hex"] = [f.hex() for f in c["files"]]
+        j["files_text"] = [f.decode("latin-1") for f in c["files"]]
+        j["cmd"] = "PERL_HASH_SEED=%d perl scripts/dshbak%s FILE1 FILE2 ...   (the files of files_text, in order)" % \
+            (c["hash_seed"], {"c": " -c", "d": " -d DIR", "n": ""}[c["mode"]])
+    if c.get("pin"):
+        j["pin"] = c["pin"]
+    return j
 
 
 def case_from_json(j):
@@ -651,8 +979,11 @@ def case_from_json(j):
         n = int(j["hosts"])
         return {"stream": "plain", "mode": "c", "hash_seed": 3, "recs": [("n%d" % i, "x") for i in range(1, n + 1)],
                 "input": "".join("n%d: x\n" % i for i in range(1, n + 1)).encode()}
-    return {"stream": j["stream"], "mode": j["mode"], "hash_seed": j["hash_seed"],
-            "input": bytes.fromhex(j["input_hex"]), "recs": [(t, b) for t, b in j["records"]]}
+    c = {"stream": j["stream"], "mode": j["mode"], "hash_seed": j["hash_seed"],
+         "input": bytes.fromhex(j["input_hex"]), "recs": [(t, b) for t, b in j["records"]]}
+    if "files_hex" in j:
+        c["files"] = [bytes.fromhex(x) for x in j["files_hex"]]
+    return c
 
 
 def shrink(judge, c, sig, budget=40):
@@ -666,6 +997,8 @@ def shrink(judge, c, sig, budget=40):
         if unterminated:
             inp = inp[:-1]
         return dict(c, recs=recs, input=inp)
+    if c.get("files") is not None:
+        return c            # (file arguments: the cut points are part of the case)
     cur = rebuild(c["recs"], c["stream"] == "unterminated")
     if not bad(cur):
         return c
@@ -694,12 +1027,48 @@ def shrink(judge, c, sig, budget=40):
 
 
 # ------------------------------------------------------------------ the check
+def gen_nat(name):
+    """a constant of the tree under test, as regenerated into lean/PdshVerif/Gen/Hostlist.lean on this run"""
+    path = os.path.join(os.path.dirname(os.path.dirname(os.path.abspath(__file__))), "lean", "PdshVerif", "Gen", "Hostlist.lean")
+    m = re.search(r"def %s : Nat := (\d+)" % name, open(path).read())
+    return int(m.group(1)) if m else None
+
+
+def volume_cases(ctx, judge, cov, dist):
+    """PER-HOST VOLUME: one host with very many lines (around 4096, 8192, 65536) next to small ones, in every mode —
+    every line must arrive, in order, once (-d: in the host's file)"""
+    dist["volume"] = {}
+    for nlines in (4095, 4096, 4097, 8200, 66000):
+        for mode in (("d", "n", "c") if nlines == 4096 else ("d",)):
+            big = [("n1", "L%d" % i) for i in range(nlines)]
+            recs = [("n2", "first")] + big[:nlines // 2] + [("n2", "mid"), ("n3", "first")] + big[nlines // 2:] + [("n3", "mid")]
+            c = {"stream": "plain", "mode": mode, "recs": recs, "hash_seed": 0, "pin": "volume:%d" % nlines,
+                 "input": "".join("%s: %s\n" % r for r in recs).encode()}
+            res = judge.judge([c], use_model=(nlines <= 4097))[0]
+            cov["evaluations"] += 1
+            dist["volume"]["%d/%s" % (nlines, mode)] = "ok" if not res["verdicts"] else res["verdicts"][0][1]
+            for kind, sig, what in res["verdicts"]:
+                if kind == "offender":
+                    ctx.offender(sig, what, {"case": case_json(c), "oracle": res["oracle"]})
+                else:
+                    ctx.disagreement("dshbak model vs scripts/dshbak: " + sig, what[:300], {"volume": nlines, "mode": mode})
+
+
 def run(ctx):
     rng = ctx.rng
+    ctx.gen_consts(["hostlist"])            # MAX_RANGE / MAX_RANGES of the tree under test (hostlist.c)
     ctx.lean_build([PROPS, "pdshmodel"])
     ctx.audit(PROPS)
     cov = {"evaluations": 0, "distinct_nontrivial": 0, "samples": [],
-           "rule": "cases = interleavings of labelled lines `host: body` from generated host-name sets (prefix+number "
+           "rule": "PINNED FIRST (pinned_cases, no randomness): label classes (dots/dashes/digits, 09->10 and 099->100 bridges, mixed "
+                   "widths, numeric-only, suffix-only differences, several prefixes under one suffix, digit-free, long, 15-20 digit "
+                   "numbers) and body classes (trailing blank / CR / one line anywhere differs, prefix of another, permuted, repeated, "
+                   "leading colon, `: ` inside, label-like, 100 kB lines, 300 lines, binary, divider look-alikes) and line formats (no "
+                   "blank after the colon, blanks around the label, CRLF, unterminated last line) each in report/-c/-d x 2 hash seeds; "
+                   "OPTIONS: every subset of -c -h -f x -d absent / an existing directory / missing / a plain file / new/deep / `0` / "
+                   "`` / `00` / `0.0`, both option orders, against Dshbak/Options.lean `plan` and the per-file specification; -d with "
+                   "every pair of 11 labels of which 7 are paths (./x, a/b, ../esc, ., .., x/, a//b) x 2 hash seeds.  THEN "
+                   "cases = interleavings of labelled lines `host: body` from generated host-name sets (prefix+number "
                    "with mixed zero padding around 9/10, 99/100, 999/1000, numeric-only names, name 0, suffixes after "
                    "the number, digits inside prefixes, digit-free names), 1-4 shared body templates (empty lines, "
                    "leading blanks, colons), optional blanks around the label, noise lines without a label, modes "
@@ -733,10 +1102,15 @@ def run(ctx):
         judge = Judge(ctx, script, pdsh, repaired, limits)
         if ctx.replay:
             j = json.load(open(ctx.replay))
-            cases = [case_from_json(j["case"]["case"] if "case" in j.get("case", {}) else j["case"])]
+            jc = j["case"]["case"] if "case" in j.get("case", {}) else j["case"]
+            if "argv" in jc or "labels" in jc:
+                cases = []              # an option / -d label case: that (small, fixed) part is run as a whole
+                option_cases(ctx, script, judge, cov, {"script_form": ""})
+            else:
+                cases = [case_from_json(jc)]
         else:
             n = 1500 if ctx.quick() else 15000
-            cases = load_corpus()
+            cases = load_corpus() + pinned_cases()
             for i in range(n):
                 stream = rng.choices(["plain", "unterminated", "emptystem", "odd"], [80, 6, 7, 7])[0]
                 cases.append(gen_case(rng, stream))
@@ -759,6 +1133,9 @@ def run(ctx):
                 cov["evaluations"] += 1
                 dist["modes"][c["mode"]] = dist["modes"].get(c["mode"], 0) + 1
                 dist["streams"][c["stream"]] = dist["streams"].get(c["stream"], 0) + 1
+                if c.get("pin"):
+                    pk = c["pin"].split(":")[0]
+                    dist.setdefault("pinned_classes", {})[pk] = dist.setdefault("pinned_classes", {}).get(pk, 0) + 1
                 nh = len({t for t, _ in c["recs"]})
                 dist["hosts_per_case"][str(min(nh, 15))] = dist["hosts_per_case"].get(str(min(nh, 15)), 0) + 1
                 r = res["real"]
@@ -786,6 +1163,36 @@ def run(ctx):
                                                  "oracle": res["oracle"]})
                     else:
                         ctx.disagreement("dshbak model vs scripts/dshbak: " + sig, what, case_json(c))
+        if not ctx.replay:
+            option_cases(ctx, script, judge, cov, dist)
+            volume_cases(ctx, judge, cov, dist)
+        # THE TWO SITES MUST AGREE: dshbak cuts a header into ranges of at most `lim` hosts and brackets of at most `mr`
+        # elements; the parser of THIS tree accepts MAX_RANGE / MAX_RANGES (regenerated from hostlist.c on this run).
+        # Wherever dshbak's limit is missing or larger than the parser's, the smallest group that needs it is run on
+        # the real pair (the header dshbak prints for MAX+1 goes to the real pdsh)
+        if not ctx.replay:
+            g_range, g_ranges = gen_nat("MAX_RANGE"), gen_nat("MAX_RANGES")
+            dist["limits"] = {"dshbak_range": lim, "dshbak_elements_per_bracket": mr, "hostlist.c MAX_RANGE": g_range,
+                              "hostlist.c MAX_RANGES": g_ranges}
+            extra = []
+            if g_ranges and (mr == 0 or mr > g_ranges) and g_ranges + 1 != 10241:
+                n = g_ranges + 1
+                extra.append(({"mode": "c", "input": "n1: x, n3: x, .. (%d odd numbers, identical bodies)" % n, "odd_hosts": n},
+                              [("n%d" % i, "x") for i in range(1, 2 * n, 2)], 5))
+            if g_range and (lim == 0 or lim > g_range) and g_range + 1 != 16385:
+                n = g_range + 1
+                extra.append(({"mode": "c", "input": "n1: x .. n%d: x (one line per host, identical bodies)" % n, "hosts": n},
+                              [("n%d" % i, "x") for i in range(1, n + 1)], 3))
+            for cj, recs2, hseed in extra:
+                lc = {"stream": "plain", "mode": "c", "recs": recs2, "hash_seed": hseed,
+                      "input": "".join("%s: x\n" % t for t, _ in recs2).encode()}
+                res = judge.judge([lc], use_model=False)[0]
+                cov["evaluations"] += 1
+                dist["streams"]["limit-mismatch"] = dist["streams"].get("limit-mismatch", 0) + 1
+                for kind, sig, what in res["verdicts"]:
+                    if kind == "offender":
+                        ctx.offender(sig, what[:300] + " [dshbak limits %s/%s, hostlist.c MAX_RANGE %s MAX_RANGES %s]" %
+                                     (lim, mr, g_range, g_ranges), {"case": cj, "real": [b[0][:120] for b in res["real"]["blocks"]][:2]})
         # F19-LONGRUN on the real pair (cheap), the model on it only in the thorough tier
         if not ctx.replay:
             for nrun in ([16385] if ctx.quick() else [16384, 16385]):
